@@ -99,7 +99,8 @@ def unpack_attrs(a):
         return a
     new_attrs={}
     attr_ref = yaml.load(a[attr_coords], Loader=FullLoader)
-    attrs_to_ignore = ['spacing', 'name', '_dummy_channel', '_image_scaling']
+    attrs_to_ignore = ['spacing', 'name', '_dummy_channel', '_image_scaling',
+                       '_image_levels']
     for attr in dict_without(attr_ref, attrs_to_ignore):
         if attr_ref[attr]:
             new_attrs[attr] = xr.DataArray(
@@ -186,7 +187,13 @@ def load(inf, lazy=False):
                     dummy_channel = yaml.safe_load(meta['_dummy_channel'])
                     dummy_channel = im.illumination[dummy_channel]
                     im = im.drop(dummy_channel.item(), illumination)
-                if '_image_scaling' in meta:
+                if '_image_levels' in meta:
+                    # the file says how many grey levels span the scaling
+                    im = im / yaml.safe_load(meta['_image_levels'])
+                    if '_image_scaling' in meta:
+                        smin, smax = yaml.safe_load(meta['_image_scaling'])
+                        im = im*(smax-smin)+smin
+                elif '_image_scaling' in meta:
                     smin, smax = yaml.safe_load(meta['_image_scaling'])
                     im = (im-im.min())*(smax-smin)/(im.max()-im.min())+smin
                 im.attrs = unpack_attrs(meta)
@@ -397,6 +404,10 @@ def _save_im(filename, im, depth=8):
     if os.path.splitext(filename)[1] in tiflist:
         if im.name == None:
             im.name = os.path.splitext(os.path.split(filename)[-1])[0]
+        levels = {8: 2**8-1, 16: 2**15-1, 32: 2**31-1, 'float': 1}.get(depth)
+        if levels is not None and im.max() <= 1:
+            # values in [0, 1] are spread over this many grey levels below
+            im.attrs['_image_levels'] = levels
         metadat = pack_attrs(im, do_spacing=True)
         # import ifd2 - hidden here since it doesn't play nice in some cases.
         from PIL.TiffImagePlugin import ImageFileDirectory_v2 as ifd2
